@@ -113,6 +113,17 @@ Proof.
     intros H; inversion H; subst; cbn; repeat split; intros; try discriminate; try lia; auto.
 Qed.
 
+(* RecursionWorkLedger.localDimension as translated from the source: which policy field and which exhaustion bit
+   each per-validation-object kind reads — the model's local_dim is that function *)
+Lemma gen_local_dimension : forall p k,
+  go_RecursionWorkLedger_localDimension (mk_T_RecursionWorkLedger p) k =
+  match local_dim p k with Some (lim, bit) => (lim, bit, true) | None => (0, 0, false) end.
+Proof.
+  intros p k. unfold go_RecursionWorkLedger_localDimension, local_dim. cbn [T_RecursionWorkLedger_policy].
+  change kind_dnskey_candidate with 2. change kind_rrset_signature with 3. change kind_concurrent_crypto with 7.
+  destruct (k =? 2); [reflexivity|]. destruct (k =? 3); [reflexivity|]. destruct (k =? 7); reflexivity.
+Qed.
+
 (* config.RecursionFirewallConfig.Validate as translated from the source (error = true).  The step in front of
    policy_of_config: MustRecursionWorkPolicyFromConfig panics exactly when Validate reports an error, so
    (1) a mode text other than the three names policy_of_config knows is refused, whatever the limits are;
